@@ -38,6 +38,21 @@ Definition pm_bwd (e : bytes * (N * (N * (list (N * N) * (list (N * N) * list (N
 Lemma prefix_maps_bwd : forallb pm_bwd prefix_maps = true.
 Proof. vm_compute. reflexivity. Qed.
 
+(* every prefix the parsers of the registered types accept is one keyset.Validate
+   accepts (TINK, LEGACY, RAW, CRUNCHY, WITH_ID_REQUIREMENT), by computation *)
+Definition pm_known (e : bytes * (N * (N * (list (N * N) * (list (N * N) * list (N * N)))))) : bool :=
+  let '(_, (kind, (custom, (to_p, (from_p, from_kid))))) := e in
+  if kind =? 2 then forallb (fun pv => known_prefix (fst pv)) from_p && forallb (fun pv => known_prefix (fst pv)) from_kid
+  else if kind =? 1 then true
+  else forallb (fun pv => known_prefix (fst pv)) from_p.
+Lemma prefix_maps_known : forallb pm_known prefix_maps = true.
+Proof. vm_compute. reflexivity. Qed.
+Lemma lookup_known t p v :
+  forallb (fun pv : N * N => known_prefix (fst pv)) t = true -> lookup t p = Some v -> known_prefix p = true.
+Proof.
+  intros H L. rewrite forallb_forall in H. exact (H _ (lookup_in _ _ _ L)).
+Qed.
+
 (* the prefix a parsed key is written back with *)
 Definition prefix_rel (p p' : N) : Prop := p' = p \/ (p = 2 /\ p' = 4).
 
@@ -71,7 +86,7 @@ Theorem registered_reserialize url sch T s0 g :
   parse_key T s0 = Some g ->
   exists s', serialize_key T g = Some s' /\
     ks_url s' = ks_url s0 /\ ks_mat s' = ks_mat s0 /\
-    ((prefix_rel (ks_prefix s0) (ks_prefix s') /\ ks_id s' = ks_id s0) \/
+    ((prefix_rel (ks_prefix s0) (ks_prefix s') /\ ks_id s' = ks_id s0 /\ known_prefix (ks_prefix s0) = true) \/
      (kt_prefix T = PIgnored /\ ks_prefix s' = prefix_raw /\ ks_id s' = 0)).
 Proof.
   intros HT Hraw Hp.
@@ -80,6 +95,7 @@ Proof.
   destruct (lookup_bytes prefix_maps url) as [[kind [custom [to_p [from_p from_kid]]]]|] eqn:E; [|discriminate].
   destruct (lookup_bytes_in _ _ _ E) as [u Hin].
   pose proof prefix_maps_bwd as Hb. rewrite forallb_forall in Hb. specialize (Hb _ Hin). unfold pm_bwd in Hb.
+  pose proof prefix_maps_known as Hk. rewrite forallb_forall in Hk. specialize (Hk _ Hin). unfold pm_known in Hk.
   unfold parse_key in Hp.
   destruct (decode (kt_schema T) (ks_value s0)) as [m|]; [|discriminate].
   destruct (normalise (kt_norm T) (kt_schema T) m) as [m'|]; [|discriminate].
@@ -92,7 +108,7 @@ Proof.
   - destruct (kind =? 2) eqn:K2.
     + destruct (lookup_bytes jwt_kid_paths url) as [path|]; [|discriminate].
       inversion HT; subst T. cbn [kt_prefix kt_schema kt_norm] in *.
-      apply andb_true_iff in Hb. destruct Hb as [B1 B2].
+      apply andb_true_iff in Hb. destruct Hb as [B1 B2]. apply andb_true_iff in Hk. destruct Hk as [K1' K2'].
       set (kid := has_path sch m' path) in *.
       destruct (lookup (if kid then from_kid else from_p) (ks_prefix s0)) as [v|] eqn:Ev; [|discriminate].
       destruct (kid && negb (v =? custom)); [discriminate|]. inversion Hp; subst g.
@@ -102,14 +118,16 @@ Proof.
       destruct Hex as (p' & Hl & Hr). rewrite Hl.
       rewrite nks_ok by (intros Hp'; apply Hraw; apply (prefix_rel_raw _ _ Hr); exact Hp').
       eexists. split; [reflexivity|]. cbn [ks_url ks_mat ks_prefix ks_id].
-      split; [reflexivity | split; [reflexivity|]]. left. split; [exact Hr | reflexivity].
+      split; [reflexivity | split; [reflexivity|]]. left. split; [exact Hr | split; [reflexivity|]].
+      destruct kid; [exact (lookup_known _ _ _ K2' Ev) | exact (lookup_known _ _ _ K1' Ev)].
     + inversion HT; subst T. cbn [kt_prefix kt_schema kt_norm] in *.
       destruct (lookup from_p (ks_prefix s0)) as [v|] eqn:Ev; [|discriminate]. inversion Hp; subst g.
       cbn [gk_url gk_mat gk_variant gk_id gk_fields].
       destruct (bwd_rel _ _ _ _ Hb Ev) as (p' & Hl & Hr). rewrite Hl.
       rewrite nks_ok by (intros Hp'; apply Hraw; apply (prefix_rel_raw _ _ Hr); exact Hp').
       eexists. split; [reflexivity|]. cbn [ks_url ks_mat ks_prefix ks_id].
-      split; [reflexivity | split; [reflexivity|]]. left. split; [exact Hr | reflexivity].
+      split; [reflexivity | split; [reflexivity|]]. left. split; [exact Hr | split; [reflexivity|]].
+      exact (lookup_known _ _ _ Hk Ev).
 Qed.
 
 (* ------------------------------------------------------------------ *)
@@ -117,10 +135,11 @@ Qed.
 (* ------------------------------------------------------------------ *)
 (* the key of the entry is in the image of the registry's parser, with the
    entry's id as id requirement (none for RAW): what keysetToEntries /
-   keyset.Manager establish *)
+   keyset.Manager establish.  No premise on the prefix: that the written prefix
+   is one keyset.Validate accepts is derived (prefix_maps_known; fallback keys
+   only exist for TINK/LEGACY/RAW/CRUNCHY; streaming keys are written as RAW). *)
 Definition key_in_image (reg : bytes -> option ktype) (e : entry dkey) : Prop :=
   exists s0, dpar reg s0 = Some (e_key e) /\
-    known_prefix (ks_prefix s0) = true /\
     ks_id s0 = (if ks_prefix s0 =? prefix_raw then 0 else e_id e) /\
     utf8_valid (ks_url s0) = true /\ scalar_ok TEnum (ks_mat s0) = true.
 
@@ -146,7 +165,7 @@ Section Registry.
     dpar reg s0 = Some k ->
     exists s', dser k = Some s' /\
       ks_url s' = ks_url s0 /\ ks_mat s' = ks_mat s0 /\
-      ((prefix_rel (ks_prefix s0) (ks_prefix s') /\ ks_id s' = ks_id s0) \/
+      ((prefix_rel (ks_prefix s0) (ks_prefix s') /\ ks_id s' = ks_id s0 /\ known_prefix (ks_prefix s0) = true) \/
        (ks_prefix s' = prefix_raw /\ ks_id s' = 0 /\ exists T g, k = DK T g /\ kt_prefix T = PIgnored)) /\
       (N.of_nat (length (ks_value s')) < two64 -> dpar reg s' = Some k).
   Proof.
@@ -160,22 +179,23 @@ Section Registry.
         right. split; [exact H1 | split; [exact H2|]]. exists T, g. split; [reflexivity | exact HI].
       + intros Hl. unfold dpar. rewrite Hu, ER.
         rewrite (reserialization_fixed_point _ _ _ _ _ _ HT (schemas_wf _ _ Hsch) EP Hser Hl). reflexivity.
-    - inversion Hp; subst k. exists s0. cbn [dser]. split; [reflexivity|]. split; [reflexivity|].
+    - destruct (legacy_prefix (ks_prefix s0)) eqn:EL; [|discriminate].
+      inversion Hp; subst k. exists s0. cbn [dser]. split; [reflexivity|]. split; [reflexivity|].
       split; [reflexivity|]. split.
-      + left. split; [left; reflexivity | reflexivity].
-      + intros _. unfold dpar. rewrite ER. reflexivity.
+      + left. split; [left; reflexivity | split; [reflexivity|]]. unfold known_prefix. rewrite EL. reflexivity.
+      + intros _. unfold dpar. rewrite ER, EL. reflexivity.
   Qed.
 
   Lemma key_in_image_key_ok es e :
     wf_dhandle reg es -> In e es -> key_ok dkey dser (dpar reg) e.
   Proof.
-    intros Hwf He. destruct (wd_keys _ _ Hwf e He) as (s0 & Hpar & Hkp & Hid & Hu & Hm).
+    intros Hwf He. destruct (wd_keys _ _ Hwf e He) as (s0 & Hpar & Hid & Hu & Hm).
     assert (Hraw : ks_prefix s0 = prefix_raw -> ks_id s0 = 0).
     { intros E. rewrite Hid, E, N.eqb_refl. reflexivity. }
     destruct (dkey_reserialize s0 _ Hraw Hpar) as (s' & Hser & Hu' & Hm' & Hpre & Hre).
     exists s'. split; [exact Hser|].
     split; [apply Hre; eapply (wd_size _ _ Hwf); eassumption|].
-    rewrite Hu', Hm'. destruct Hpre as [[Hr Hi] | (H1 & H2 & _)].
+    rewrite Hu', Hm'. destruct Hpre as [(Hr & Hi & Hkp) | (H1 & H2 & _)].
     - split; [eapply prefix_rel_known; eassumption|]. split; [|split; assumption].
       rewrite Hi, Hid. destruct Hr as [-> | [E ->]]; [reflexivity|]. rewrite E. reflexivity.
     - rewrite H1, H2. split; [reflexivity|]. split; [reflexivity | split; assumption].
@@ -442,7 +462,7 @@ Section RegistryPublic.
     destruct t as [| | | | | | | |ps|]; try discriminate. destruct vv as [| |[pm|]|]; try discriminate.
     destruct (reg pu) as [TP|] eqn:ERP; [|discriminate]. inversion Hpub; subst k'. clear Hpub.
     (* the private key *)
-    unfold dpar in Hpar. destruct (reg (ks_url s0)) as [T0|] eqn:ER; [|discriminate].
+    unfold dpar in Hpar. destruct (reg (ks_url s0)) as [T0|] eqn:ER; [|destruct (legacy_prefix (ks_prefix s0)); discriminate].
     destruct (parse_key T0 s0) as [g0|] eqn:EP; [|discriminate]. inversion Hpar; subst T0 g0. clear Hpar.
     destruct (parsed_key_shape _ _ _ EP) as (Hurl & Hmat & Hw & Hnf & Hpre).
     destruct (registry_some _ _ _ ER) as (sch & Hsch & HT & Hks).
@@ -510,12 +530,12 @@ Section RegistryPublic.
     - intros e' He'. destruct (Forall2_in_r _ _ _ _ HF He') as (e & He & pk & _ & ->). cbn [e_status].
       exact (wd_status _ _ Hwf e He).
     - intros e' He'. destruct (Forall2_in_r _ _ _ _ HF He') as (e & He & pk & Hpk & ->).
-      destruct (wd_keys _ _ Hwf e He) as (s0 & Hpar & Hkp & Hid & Hu & Hm).
+      destruct (wd_keys _ _ Hwf e He) as (s0 & Hpar & Hid & Hu & Hm).
       assert (Hraw : ks_prefix s0 = prefix_raw -> ks_id s0 = 0).
       { intros E. rewrite Hid, E, N.eqb_refl. reflexivity. }
       destruct (public_key_in_image s0 _ _ Hpar Hpk (fun s => wd_size _ _ Hwf e s He) Hraw) as (pu & v & Hpar' & Hutf).
       exists (mkKser pu v mat_public (ks_prefix s0) (ks_id s0)).
-      cbn [e_key e_id ks_prefix ks_id ks_url ks_mat]. split; [exact Hpar'|]. split; [exact Hkp|].
+      cbn [e_key e_id ks_prefix ks_id ks_url ks_mat]. split; [exact Hpar'|].
       split; [exact Hid|]. split; [exact Hutf | reflexivity].
     - exact Hsize'.
   Qed.
@@ -549,15 +569,20 @@ Definition ex_streaming_schema : schema :=
     (SCons 4 (TMsg (SCons 1 TEnum (SCons 2 TU32 SNil))) SNil))))) (SCons 3 TBytes SNil)).
 Definition ecdsa_priv_url : bytes := Eval vm_compute in url_named 28.
 Definition mldsa_pub_url : bytes := Eval vm_compute in url_named 33.
+Definition mldsa_priv_url : bytes := Eval vm_compute in url_named 32.
+(* MlDsaPrivateKey { version = 1; key_value = 2; public_key = 3 } *)
+Definition ex_mldsa_priv_schema : schema :=
+  SCons 1 TU32 (SCons 2 TBytes (SCons 3 (TMsg ex_mldsa_pub_schema) SNil)).
 Definition streaming_url : bytes := Eval vm_compute in url_named 40.
 
-(* the descriptors of four registered types; every other URL is unregistered *)
+(* the descriptors of six registered types; every other URL is unregistered *)
 Definition ex_schemas (url : bytes) : option schema :=
   if beq url aesgcm_url then Some ex_aesgcm_schema
   else if beq url ecdsa_priv_url then Some ex_ecdsa_priv_schema
   else if beq url ecdsa_pub_url then Some ecdsa_pub_schema
   else if beq url mldsa_pub_url then Some ex_mldsa_pub_schema
   else if beq url streaming_url then Some ex_streaming_schema
+  else if beq url mldsa_priv_url then Some ex_mldsa_priv_schema
   else None.
 Lemma ex_schemas_wf url sch : ex_schemas url = Some sch -> wf_schema sch = true.
 Proof.
@@ -566,7 +591,8 @@ Proof.
   destruct (beq url ecdsa_priv_url); [intros H; inversion H; reflexivity|].
   destruct (beq url ecdsa_pub_url); [intros H; inversion H; reflexivity|].
   destruct (beq url mldsa_pub_url); [intros H; inversion H; reflexivity|].
-  destruct (beq url streaming_url); [intros H; inversion H; reflexivity | discriminate].
+  destruct (beq url streaming_url); [intros H; inversion H; reflexivity|].
+  destruct (beq url mldsa_priv_url); [intros H; inversion H; reflexivity | discriminate].
 Qed.
 Definition ex_reg : bytes -> option ktype := registry ex_schemas.
 
@@ -630,7 +656,8 @@ Definition exB_s : kser := mkKser ecdsa_priv_url exB_value 2 1 77.
 Definition exB_k : dkey := Eval vm_compute in dk_of exB_s.
 Definition exB_es : list (entry dkey) := [mkEntry exB_k true 77 Enabled].
 Definition ex_pub_url (url : bytes) : option (bytes * N) :=
-  if beq url ecdsa_priv_url then Some (ecdsa_pub_url, 2) else None.
+  if beq url ecdsa_priv_url then Some (ecdsa_pub_url, 2)
+  else if beq url mldsa_priv_url then Some (mldsa_pub_url, 3) else None.
 Definition exB_pub : list (entry dkey) := Eval vm_compute in
   match public_handle dkey (dpub ex_reg ex_pub_url) exB_es with Some l => l | None => [] end.
 Definition exB_pub_clear : bytes := Eval vm_compute in
@@ -638,15 +665,20 @@ Definition exB_pub_clear : bytes := Eval vm_compute in
 
 Lemma ex_pub_url_tables url pu pf : ex_pub_url url = Some (pu, pf) -> pub_tables_ok url pu pf = true.
 Proof.
-  unfold ex_pub_url. destruct (beq url ecdsa_priv_url) eqn:E; [|discriminate].
-  apply beq_eq in E. subst url. intros H. inversion H. vm_compute. reflexivity.
+  unfold ex_pub_url. destruct (beq url ecdsa_priv_url) eqn:E.
+  - apply beq_eq in E. subst url. intros H. inversion H. vm_compute. reflexivity.
+  - destruct (beq url mldsa_priv_url) eqn:E2; [|discriminate].
+    apply beq_eq in E2. subst url. intros H. inversion H. vm_compute. reflexivity.
 Qed.
 Lemma ex_pub_url_schema url pu pf sch : ex_pub_url url = Some (pu, pf) -> ex_schemas url = Some sch ->
   exists ps, field_type sch pf = Some (TMsg ps) /\ ex_schemas pu = Some ps.
 Proof.
-  unfold ex_pub_url. destruct (beq url ecdsa_priv_url) eqn:E; [|discriminate].
-  apply beq_eq in E. subst url. intros H. inversion H; subst pu pf. intros Hs.
-  vm_compute in Hs. inversion Hs; subst sch. exists ecdsa_pub_schema. split; vm_compute; reflexivity.
+  unfold ex_pub_url. destruct (beq url ecdsa_priv_url) eqn:E.
+  - apply beq_eq in E. subst url. intros H. inversion H; subst pu pf. intros Hs.
+    vm_compute in Hs. inversion Hs; subst sch. exists ecdsa_pub_schema. split; vm_compute; reflexivity.
+  - destruct (beq url mldsa_priv_url) eqn:E2; [|discriminate].
+    apply beq_eq in E2. subst url. intros H. inversion H; subst pu pf. intros Hs.
+    vm_compute in Hs. inversion Hs; subst sch. exists ex_mldsa_pub_schema. split; vm_compute; reflexivity.
 Qed.
 
 Lemma exB_wf : wf_dhandle ex_reg exB_es.
@@ -672,34 +704,87 @@ Lemma exB_pub_size e s : In e exB_pub -> dser (e_key e) = Some s -> N.of_nat (le
 Proof. intros [<-|[]] H; vm_compute in H; inversion H; subst s; vm_compute; reflexivity. Qed.
 
 (* ------------------------------------------------------------------ *)
-(* what the premise known_prefix excludes is real: a handle holding an
-   ML-DSA key of the variant written as OutputPrefixType
-   WITH_ID_REQUIREMENT (5; signature/mldsa/protoserialization.go:56,171)
-   is written without error, and the reader (keyset/validation.go
-   validateKey: TINK, LEGACY, RAW, CRUNCHY only) refuses those bytes     *)
+(* OutputPrefixType WITH_ID_REQUIREMENT (5): an ML-DSA private key of the
+   variant NoPrefixWithPrehashID (signature/mldsa/protoserialization.go:56,171)
+   with id requirement 9, alone in a handle.  Before /repo 4b80d2c the reader
+   (keyset/validation.go validateKey) refused what the writer produced (a
+   finding of this property, findings/mldsa_with_id_requirement_keyset_unreadable);
+   with the repaired Validate the handle is a registry handle and survives
+   cleartext, encrypted and Public() write/read.                         *)
 (* ------------------------------------------------------------------ *)
-Definition exC_s : kser := mkKser mldsa_pub_url [18; 4; 1; 2; 3; 4; 26; 2; 8; 1] 3 5 9.
+Definition exC_value : bytes := Eval vm_compute in
+  encode ex_mldsa_priv_schema [VInt 0; VBytes [7; 7; 7; 7]; VMsg (Some [VInt 0; VBytes [1; 2; 3; 4]; VMsg (Some [VInt 1])])].
+Definition exC_s : kser := mkKser mldsa_priv_url exC_value 2 5 9.
 Definition exC_k : dkey := Eval vm_compute in dk_of exC_s.
 Definition exC_es : list (entry dkey) := [mkEntry exC_k true 9 Enabled].
 Definition exC_clear : bytes := Eval vm_compute in
   match write_cleartext dkey dser exC_es with Some b => b | None => [] end.
+Definition exC_enc : bytes := Eval vm_compute in
+  match write_encrypted dkey dser toy_enc exC_es [1; 2; 3] with Some b => b | None => [] end.
+Definition exC_pub : list (entry dkey) := Eval vm_compute in
+  match public_handle dkey (dpub ex_reg ex_pub_url) exC_es with Some l => l | None => [] end.
+Definition exC_pub_clear : bytes := Eval vm_compute in
+  match write_cleartext dkey dser exC_pub with Some b => b | None => [] end.
 
-Theorem with_id_requirement_keyset_unreadable :
-  exists (schemas : bytes -> option schema) (s0 : kser) (k : dkey) (b : bytes),
-    (forall url sch, schemas url = Some sch -> wf_schema sch = true) /\
-    ks_prefix s0 = 5 /\ ks_id s0 = 9 /\
-    dpar (registry schemas) s0 = Some k /\ dser k = Some s0 /\
-    (exists T g, k = DK T g) /\
-    let es := [mkEntry k true 9 Enabled] in
-    new_from_entries dkey es = Some es /\
-    write_cleartext dkey dser es = Some b /\
-    read_cleartext dkey (dpar (registry schemas)) b = None.
+Lemma exC_wf : wf_dhandle ex_reg exC_es.
 Proof.
-  exists ex_schemas, exC_s, exC_k, exC_clear. split; [exact ex_schemas_wf|].
-  split; [reflexivity|]. split; [reflexivity|]. split; [vm_compute; reflexivity|].
-  split; [vm_compute; reflexivity|]. split; [vm_compute; eexists; eexists; reflexivity|].
-  cbv zeta. repeat split; vm_compute; reflexivity.
+  constructor.
+  - cbn. repeat constructor; cbn; intuition discriminate.
+  - intros e [<-|[]]; cbn; reflexivity.
+  - exists [], (mkEntry exC_k true 9 Enabled), []. repeat split. constructor.
+  - intros e [<-|[]]; cbn; discriminate.
+  - intros e [<-|[]]. exists exC_s. repeat split; vm_compute; reflexivity.
+  - intros e s [<-|[]] H; vm_compute in H; inversion H; subst s; vm_compute; reflexivity.
 Qed.
+
+Lemma exC_pub_size e s : In e exC_pub -> dser (e_key e) = Some s -> N.of_nat (length (ks_value s)) < two64.
+Proof. intros [<-|[]] H; vm_compute in H; inversion H; subst s; vm_compute; reflexivity. Qed.
+
+Lemma exC_facts :
+  ks_prefix exC_s = 5 /\ ks_id exC_s = 9 /\
+  dpar ex_reg exC_s = Some exC_k /\ dser exC_k = Some exC_s /\
+  write_cleartext dkey dser exC_es = Some exC_clear /\
+  read_cleartext dkey (dpar ex_reg) exC_clear = Some exC_es /\
+  write_encrypted dkey dser toy_enc exC_es [1; 2; 3] = Some exC_enc /\
+  read_encrypted dkey (dpar ex_reg) toy_dec exC_enc [1; 2; 3] = Some exC_es /\
+  public_handle dkey (dpub ex_reg ex_pub_url) exC_es = Some exC_pub /\
+  map (fun e => option_map (fun s => (ks_url s, ks_prefix s, ks_id s)) (dser (e_key e))) exC_pub
+    = [Some (mldsa_pub_url, 5, 9)] /\
+  write_cleartext dkey dser exC_pub = Some exC_pub_clear /\
+  read_cleartext dkey (dpar ex_reg) exC_pub_clear = Some exC_pub.
+Proof. repeat split; vm_compute; reflexivity. Qed.
+
+Theorem with_id_requirement_keyset_roundtrips :
+  (exists T g, exC_k = DK T g) /\
+  wf_dhandle ex_reg exC_es /\ wf_dhandle ex_reg exC_pub /\
+  ks_prefix exC_s = 5 /\ ks_id exC_s = 9 /\
+  dpar ex_reg exC_s = Some exC_k /\ dser exC_k = Some exC_s /\
+  write_cleartext dkey dser exC_es = Some exC_clear /\
+  read_cleartext dkey (dpar ex_reg) exC_clear = Some exC_es /\
+  write_encrypted dkey dser toy_enc exC_es [1; 2; 3] = Some exC_enc /\
+  read_encrypted dkey (dpar ex_reg) toy_dec exC_enc [1; 2; 3] = Some exC_es /\
+  public_handle dkey (dpub ex_reg ex_pub_url) exC_es = Some exC_pub /\
+  map (fun e => option_map (fun s => (ks_url s, ks_prefix s, ks_id s)) (dser (e_key e))) exC_pub
+    = [Some (mldsa_pub_url, 5, 9)] /\
+  write_cleartext dkey dser exC_pub = Some exC_pub_clear /\
+  read_cleartext dkey (dpar ex_reg) exC_pub_clear = Some exC_pub.
+Proof.
+  split; [vm_compute; do 2 eexists; reflexivity|]. split; [exact exC_wf|]. split; [|exact exC_facts].
+  exact (registry_public_wf ex_schemas ex_schemas_wf ex_pub_url ex_pub_url_tables ex_pub_url_schema
+           exC_es exC_pub exC_wf (proj1 (proj2 (proj2 (proj2 (proj2 (proj2 (proj2 (proj2 (proj2 exC_facts))))))))) exC_pub_size).
+Qed.
+
+(* WITH_ID_REQUIREMENT on a registered type whose parser does not know it, and on
+   an unregistered URL (the fallback key cannot compute an output prefix): the
+   keyset passes Validate and is refused when the key is parsed *)
+Definition exE_ks1 : pkeyset :=
+  mkPkeyset 7 [mkPkey (Some (mkKeyData aesgcm_url [26; 16; 1; 2; 3; 4; 5; 6; 7; 8; 9; 10; 11; 12; 13; 14; 15; 16] 1)) 1 7 5].
+Definition exE_ks2 : pkeyset := mkPkeyset 7 [mkPkey (Some (mkKeyData [116; 50] [9] 1)) 1 7 5].
+Lemma exE_facts :
+  validate exE_ks1 = true /\ handle_from_proto dkey (dpar ex_reg) exE_ks1 = None /\
+  validate exE_ks2 = true /\ handle_from_proto dkey (dpar ex_reg) exE_ks2 = None /\
+  handle_from_proto dkey (dpar ex_reg) (mkPkeyset 7 [mkPkey (Some (mkKeyData [116; 50] [9] 1)) 1 7 4]) <> None.
+Proof. repeat split; try (vm_compute; reflexivity). vm_compute. discriminate. Qed.
 
 (* the second disjunct of dkey_reserialize is real: a streaming AEAD key read from a
    TINK serialisation with id 5 is written back as RAW without id (the parser
